@@ -281,5 +281,70 @@ theorem keeps_ring_preCmds : ∀ (fuel : Nat) (cmd : Cmd), Keeps Ed.ringOf (preC
     have h2 := keeps_ring_reverseIncrementalSearch S U cfg k
     unfold preCmds; em_ring [ih]
 
+/-! ### `PopOK`: what `YankPop` needs, and how the read loop keeps it -/
+
+/-- the last ring action is not a yank -/
+def NoYank (s : Ed) : Prop := ∀ size, s.ring.lastAction ≠ .yank size
+
+/-- the cross-step fact `YankPop` needs: the text of the last yank stands right before the cursor -/
+def PopOK (s : Ed) : Prop :=
+  ∀ size, s.ring.lastAction = .yank size → size ≤ s.line.pos ∧ IsBoundary s.line.buf (s.line.pos - size)
+
+/-- emacs mode: `PopOK` (in vi mode `YankPop` is never executed) -/
+def PopI (cfg : EdCfg) (s : Ed) : Prop := cfg.vi = false → PopOK s
+
+/-- what holds when a command is about to be executed: `PopOK`, and the last action has been reset
+    unless the command is one of those the main loop does not reset for -/
+def PopPre (cfg : EdCfg) (cmd : Cmd) (s : Ed) : Prop :=
+  cfg.vi = false → PopOK s ∧ (cmd.shouldResetKillRing = true → NoYank s)
+
+theorem NoYank.popOK {s : Ed} (h : NoYank s) : PopOK s := fun size hs => absurd hs (h size)
+
+theorem NoYank.of_ring {s s' : Ed} (h : NoYank s) (hr : s'.ring = s.ring) : NoYank s' := by
+  intro size; rw [hr]; exact h size
+
+theorem PopOK.of_eq {s s' : Ed} (h : PopOK s) (hl : s'.line = s.line) (hr : s'.ring = s.ring) : PopOK s' := by
+  intro size hs; rw [hr] at hs; rw [hl]; exact h size hs
+
+theorem noYank_reset (s : Ed) : NoYank { s with ring := s.ring.reset } := by
+  intro size h; cases h
+
+theorem PopPre.of_noYank {cmd : Cmd} {s : Ed} (h : NoYank s) : PopPre cfg cmd s := fun _ => ⟨h.popOK, fun _ => h⟩
+
+/-- the dispatch loop: it hands back the command it was given in the state it was given, or it ran a
+    completion / an incremental search — for which the last action had been reset, and it keeps the ring -/
+theorem pop_preCmds (fuel : Nat) (cmd0 : Cmd) {s : Ed} (hp : PopPre cfg cmd0 s) :
+    wp (preCmds S U cfg fuel cmd0)
+      (fun r s' => match r with | some cmd => PopPre cfg cmd s' | none => PopI cfg s') (fun _ _ => True) s := by
+  have key : cmd0.shouldResetKillRing = true →
+      wp (preCmds S U cfg fuel cmd0)
+        (fun r s' => match r with | some cmd => PopPre cfg cmd s' | none => PopI cfg s') (fun _ _ => True) s := by
+    intro hreset
+    refine wp_mono ((keeps_ring_preCmds S U cfg fuel cmd0).wp s) ?_ (fun _ _ _ => trivial)
+    intro r s' hr
+    by_cases hvi : cfg.vi = false
+    · have hn : NoYank s' := ((hp hvi).2 hreset).of_ring hr
+      cases r with
+      | some cmd => exact PopPre.of_noYank cfg hn
+      | none => exact fun _ => hn.popOK
+    · cases r with
+      | some cmd => exact fun h => absurd h hvi
+      | none => exact fun h => absurd h hvi
+  by_cases c1 : (cmd0 == .complete && cfg.hasHelper) = true
+  · apply key
+    have : cmd0 = .complete := by
+      simp only [Bool.and_eq_true, beq_iff_eq] at c1; exact c1.1
+    subst this; rfl
+  · by_cases c2 : (cmd0 == .reverseSearchHistory) = true
+    · apply key
+      have : cmd0 = .reverseSearchHistory := by simpa using c2
+      subst this; rfl
+    · cases fuel with
+      | zero => unfold preCmds; exact trivial
+      | succ k =>
+        unfold preCmds
+        rw [if_neg c1, if_neg c2, wp_pure]
+        exact hp
+
 end
 end Rl
